@@ -31,7 +31,7 @@ ASSUMPTIONS = ["region end inclusiveness is undefined by the syntax: both readin
 
 
 def plan(tier):
-    return {"cases": 200 if tier == "quick" else 3000, "shards": 16,
+    return {"cases": 1000 if tier == "quick" else 3000, "shards": 16,
             "shard_budget_s": 300 if tier == "quick" else 1800}
 
 
@@ -57,9 +57,14 @@ def _budget_cb(frame):
         raise NonTermination(f"view.search executed more than {budget} lines for a node list of {len(nl) if nl is not None else '?'}")
 
 
+def _reset_cb(frame):
+    # frame ids are reused between calls: the step counter of a call starts at function entry
+    _steps[id(frame)] = 0
+
+
 def setup(ctx):
     from gaftools.cli import view
-    M.PROBES.every_line(view.search, _budget_cb, "search_step_budget")
+    M.PROBES.every_line(view.search, _budget_cb, "search_step_budget", on_start=_reset_cb)
 
 
 def node_sets(w, contig, a, b):
